@@ -239,11 +239,13 @@ def squash(rng, cfg, n0, n1):
 
 def thresholds(rng, cfg):
     r = rng.random()
-    if r < 0.5:
+    if r < 0.4:
         return
     cfg.cqa = rng.choice([1.0e-3, 0.05, 0.2, 0.4, 0.7, 1.0e-9])
     cfg.pmin, cfg.pmax = rng.choice([(1.0e-3, 3.0), (0.5, 1.6), (0.3, 2.2), (1.0e-3, 1.2), (0.9, 3.0)])
-    cfg.minvol = rng.choice([1.0e-15, 1.0e-15, 0.0, 1.0e-3, 1.0e-12])
+    # min_volume of the order of the cell sizes (tri areas ~0.5, tet volumes ~1/6): the area / volume tests decide on
+    # well-shaped cells, not only the quality threshold
+    cfg.minvol = rng.choice([1.0e-15, 1.0e-15, 0.0, 1.0e-3, 1.0e-12, 0.45 if cfg.twod else 0.15, 0.55 if cfg.twod else 0.18])
 
 
 def decorate(rng, cfg, n0, n1):
@@ -310,7 +312,7 @@ def gen_star_case(rng):
 
 def gen_stars(rng, tier):
     ops = []
-    for _ in range(N(tier, 110, 500)):
+    for _ in range(N(tier, 220, 900)):
         cfg, n0, n1 = gen_star_case(rng)
         pool = GUARD_OPS2 if cfg.twod else GUARD_OPS3
         for op in rng.sample(pool, 3) + ['remove']:
